@@ -147,6 +147,21 @@ def cases():
     return out
 
 
+def expected(law, alias1):
+    """the model formula of a case as a term over alpha, A1, A2, Eb1, Eb2, Y1 and the named constants"""
+    A1, A2, E1, E2, Y1 = z3.Reals("A1 A2 Eb1 Eb2 Y1")
+    want = law
+    if isinstance(law, tuple) and law[0] == "rr07-photon":
+        # Y: the species' yield, default 0.1 when zero; threshold compares with the species' binding energy
+        yv = z3.If(Y1 != 0, Y1, z3.RealVal("0.1"))
+        want = z3.If(c("mantabund") > rv("1e-30"), z3.If(law[2] >= E1, law[1](yv), rv(0)), rv(0))
+    elif isinstance(law, tuple) and law[0] == "guard":
+        want = law[1](E1)
+    elif callable(law):
+        want = law(z3.If(Y1 != 0, Y1, z3.RealVal("1e-3")))
+    return z3.substitute(want, (c("eb_ALIAS1"), c("eb_" + alias1)))
+
+
 _CASES = None
 
 
@@ -203,17 +218,78 @@ def entry(it):
     # eb_<alias> constants: identify with the species' binding energy symbol used by the law
     alias1 = sps[0].alias if isinstance(sps[0].alias, str) else "?"
     den = cfrag.to_real(v)
-    want = law
-    if isinstance(law, tuple) and law[0] == "rr07-photon":
-        # Y: the species' yield, default 0.1 when zero; threshold compares with the species' binding energy
-        yv = z3.If(Y1 != 0, Y1, z3.RealVal("0.1"))
-        want = z3.If(c("mantabund") > rv("1e-30"), z3.If(law[2] >= E1, law[1](yv), rv(0)), rv(0))
-    elif isinstance(law, tuple) and law[0] == "guard":
-        want = law[1](E1)
-    elif callable(law):
-        want = law(z3.If(Y1 != 0, Y1, z3.RealVal("1e-3")))
-    want = z3.substitute(want, (c("eb_ALIAS1"), c("eb_" + alias1)))
+    want = expected(law, alias1)
     it.prove(den == want, f"{label}/equals-model-formula", P, detail=repr(rate))
+
+
+# ---------------------------------------------------------------- species data getters (binding energy, yield)
+def entry_getters(it):
+    """Contract of Species.binding_energy / Species.photon_yield (getter), for an ice species:
+         result == first non-zero of (value set on the species, user table entry for its name, RATE12 entry for its gas name)
+                   -> RuntimeError when there is none;   yield: own value, else the user table entry, else 0.0
+         frame:  the getter modifies neither the species nor the tables  (a value looked up once must not shadow a later user
+                 override - "binding energy incl. user overrides" in the property statement)"""
+    from naunet.species import Species
+    from naunet import chemistrydata
+    P = ("C11",)
+    Species.reset()
+    which = it.choose(2, "getter")
+    own_set, user_set, r12_set = it.choose(2, "own"), it.choose(2, "user"), it.choose(2, "rate12")
+    E0, Eu, Er = z3.Reals("own_value user_value rate12_value")
+    sp = Species("#CO")
+    saved = (dict(chemistrydata.user_binding_energy), dict(chemistrydata.rate12_binding_energy), dict(chemistrydata.user_photon_yield))
+    try:
+        for d in (chemistrydata.user_binding_energy, chemistrydata.user_photon_yield):
+            d.clear()
+        chemistrydata.rate12_binding_energy.pop(sp.gasname, None)
+        attr = "_binding_energy" if which == 0 else "_photon_yield"
+        user = chemistrydata.user_binding_energy if which == 0 else chemistrydata.user_photon_yield
+        if own_set:
+            setattr(sp, attr, SReal(E0))
+        if user_set:
+            user[sp.name] = SReal(Eu)
+        if r12_set and which == 0:
+            chemistrydata.rate12_binding_energy[sp.gasname] = SReal(Er)
+        before = dict(sp.__dict__)
+        tabs_before = [dict(chemistrydata.user_binding_energy), dict(chemistrydata.rate12_binding_energy), dict(chemistrydata.user_photon_yield)]
+        getter = (Species.binding_energy if which == 0 else Species.photon_yield).fget
+        name = "binding-energy" if which == 0 else "photon-yield"
+        cands = ([E0] if own_set else []) + ([Eu] if user_set else []) + ([Er] if (r12_set and which == 0) else [])
+        want, none = z3.RealVal(0), z3.BoolVal(True)
+        for cnd in reversed(cands):
+            want = z3.If(cnd != 0, cnd, want)
+            none = z3.And(none, cnd == 0)
+        try:
+            res = it.call_function(getter, [sp], {})
+        except PyRaise as e:
+            if which == 0 and isinstance(e.exc, RuntimeError):
+                it.prove(none, f"getter/{name}/error-only-when-no-value-is-known", P)
+                res = None
+            else:
+                it.fail(f"getter/{name}/no-exception", P, f"{type(e.exc).__name__}: {e.exc}")
+                return
+        if res is not None:
+            from pyvc.ops import term_of
+            if which == 0:
+                it.prove(z3.Not(none), f"getter/{name}/value-returned-only-when-one-is-known", P)
+            t = term_of(res)
+            it.prove((z3.ToReal(t) if z3.is_int(t) else t) == want, f"getter/{name}/first-nonzero-of-own-user-rate12", P, detail=repr(res))
+        after = sp.__dict__
+        same = set(after) == set(before) and all(after[k] is before[k] for k in before)
+        if not same:
+            changed = sorted(k for k in set(after) | set(before) if after.get(k) is not before.get(k))
+            it.fail(f"getter/{name}/frame-species-not-modified", P, f"the getter changed {changed}")
+        else:
+            it.prove(z3.BoolVal(True), f"getter/{name}/frame-species-not-modified", P)
+        tabs_after = [chemistrydata.user_binding_energy, chemistrydata.rate12_binding_energy, chemistrydata.user_photon_yield]
+        if any(set(a) != set(b) or any(a[k] is not b[k] for k in b) for a, b in zip(tabs_after, tabs_before)):
+            it.fail(f"getter/{name}/frame-tables-not-modified", P, "a data table was modified by the getter")
+        else:
+            it.prove(z3.BoolVal(True), f"getter/{name}/frame-tables-not-modified", P)
+    finally:
+        for d, sv in zip((chemistrydata.user_binding_energy, chemistrydata.rate12_binding_energy, chemistrydata.user_photon_yield), saved):
+            d.clear()
+            d.update(sv)
 
 
 def _register():
@@ -229,6 +305,8 @@ def _register():
            RR07Grain.rate_cosmicray_desorption, RR07Grain.rate_h2_desorption, RR07XGrain.rate_thermal_desorption,
            Species.binding_energy.fget, Species.photon_yield.fget, Species.massnumber.fget]
     register(Unit("grain_rateexpr", __name__, make_ctx, entry, functions=fns, props=("C11",), timeout_ms=90000))
+    register(Unit("species_data_getters", __name__, make_ctx, entry_getters,
+                  functions=[Species.binding_energy.fget, Species.photon_yield.fget], props=("C11",)))
 
 
 _register()
